@@ -100,7 +100,7 @@ impl Scenario for Bh {
         self.prop
     }
     fn label(&self) -> String {
-        format!("bulkhead max={} max_wait={:?} callers={}{}{}", self.max, self.max_wait, self.callers, if self.late_ticks > 0 { " late-polls" } else { "" }, if self.shave_us > 0 { format!(" minus {}us", self.shave_us) } else if self.single_handle { " one-handle".to_string() } else if self.keep_done { " finished-futures-kept".to_string() } else if self.sync_panic_first { " first-inner-call-panics-in-call()".to_string() } else if self.preset_first { " builder_order=reject_when_full_first".to_string() } else { String::new() })
+        format!("bulkhead max={} max_wait={:?} callers={}{}{}", self.max, self.max_wait, self.callers, if self.late_ticks > 0 { " late-polls" } else { "" }, if self.shave_us > 0 { format!(" minus {}us", self.shave_us) } else if self.single_handle { " one-handle".to_string() } else if self.keep_done { " finished-futures-kept".to_string() } else if self.sync_panic_first { " first-inner-call-panics-in-call()".to_string() } else if self.preset_first { " builder_order=small()_preset_first".to_string() } else { String::new() })
     }
     fn callers(&self) -> usize {
         self.callers
@@ -116,10 +116,12 @@ impl Scenario for Bh {
     }
     fn init(&self, w: &mut World) -> X {
         let b = if self.preset_first {
-            let b = BulkheadLayer::builder().reject_when_full();
+            // (the small() preset: 10 concurrent calls, reject when full - everything overridden below)
+            let b = BulkheadLayer::small();
             let b = match self.max_wait {
                 None => b, // (not used with preset_first)
                 Some(0) => b.max_wait_duration(Duration::from_millis(5)).reject_when_full(),
+                Some(WAIT_FOR_EVER) => b.max_wait_duration(Duration::MAX),
                 Some(ms) => b.max_wait_duration(Duration::from_micros(ms * 1000 - self.shave_us)),
             };
             b.max_concurrent_calls(self.max)
@@ -128,6 +130,7 @@ impl Scenario for Bh {
             match self.max_wait {
                 None => b,
                 Some(0) => b.reject_when_full(),
+                Some(WAIT_FOR_EVER) => b.max_wait_duration(Duration::MAX),
                 Some(ms) => b.max_wait_duration(Duration::from_micros(ms * 1000 - self.shave_us)),
             }
         };
@@ -328,8 +331,14 @@ impl Scenario for Bh {
     }
 }
 
+/// max_wait value standing for `max_wait_duration(Duration::MAX)`: a wait that is configured
+/// but never runs out
+const WAIT_FOR_EVER: u64 = u64::MAX / 4;
+
 fn configs(prop: &'static str, tier: Tier) -> Vec<Bh> {
     let mut v = vec![];
+    // a wait of Duration::MAX (the timer cannot represent the deadline)
+    v.push(Bh { prop, max: 1, max_wait: Some(WAIT_FOR_EVER), callers: 3, max_ticks: tier.pick(2, 3), max_drops: 1, max_panics: 0, late_ticks: 0, shave_us: 0, single_handle: false, grid: 10, keep_done: false, sync_panic_first: false, preset_first: false });
     for max in [1usize, 2] {
         for max_wait in [None, Some(0), Some(20), Some(25)] {
             let callers = tier.pick(3, 4).max(max + 1);
